@@ -47,10 +47,36 @@ static inline uint32_t verif_ht_hash_model(uint64_t k) { return (uint32_t)(k ^ (
 uint32_t __CPROVER_uninterpreted_ht_hash(uint64_t);
 #define HT_UF(k) __CPROVER_uninterpreted_ht_hash(k)
 #endif
-static inline uint32_t hs_hash32(uint32_t key, unsigned int order) { return HT_UF((uint64_t)key) & ((UINT32_C(1) << order) - 1); }
-static inline uint32_t hs_hash6432shift(uint64_t key, unsigned int order) { return HT_UF(key) & ((UINT32_C(1) << order) - 1); }
+#ifdef HT_PIN_HOME
+/* units ht.putd: while verif_pin is set the table code's hash of the (one) key it hashes is the CONSTANT HT_PIN_HOME, so
+ * that every index in hashtable_put is a constant for the solver; the harness assumes HT_H(key) == HT_PIN_HOME, so this is
+ * the same function, and the assertion checks that no other key is hashed meanwhile. */
+static _Bool verif_pin; static uint64_t verif_pin_key;
+#define HT_PINNED(k) if (verif_pin) { __CPROVER_assert((uint64_t)(k) == verif_pin_key, "C17.putd.only-the-inserted-key-is-hashed"); return HT_PIN_HOME; }
+#else
+#define HT_PINNED(k)
+#endif
+static inline uint32_t hs_hash32(uint32_t key, unsigned int order) { HT_PINNED(key) return HT_UF((uint64_t)key) & ((UINT32_C(1) << order) - 1); }
+static inline uint32_t hs_hash6432shift(uint64_t key, unsigned int order) { HT_PINNED(key) return HT_UF(key) & ((UINT32_C(1) << order) - 1); }
 
+#ifdef HT_STUB_CLOSER
+/* Modular proof of hashtable_put's displacement loop: the CALL of find_closer_entry inside the macro-generated
+ * put is redirected to a contract stub while the real body keeps being compiled under another name.  The token
+ * `find_closer_entry_VT` occurs exactly twice in the expansion of DECLARE_HASHTABLE (definition, then the call in
+ * put); an object-like macro numbers the occurrences with __COUNTER__.  The _Static_assert below makes a different
+ * numbering a compile error (= infrastructure error, never a verdict). */
+#define HT_CAT_(a, b) a##b
+#define HT_CAT(a, b) HT_CAT_(a, b)
+enum { ht_counter_base = __COUNTER__ };
+#define find_closer_entry_VT HT_CAT(verif_closer_occurrence_, __COUNTER__)
+#define verif_closer_occurrence_1 verif_real_find_closer_entry
+#define verif_closer_occurrence_2 verif_stub_find_closer_entry
+struct hashtable_uint32_t; struct hashtable_uint64_t;
+#endif
 #if HT_KIND == 1
+#ifdef HT_STUB_CLOSER
+static inline uint32_t verif_stub_find_closer_entry(struct hashtable_uint32_t *table, uint32_t free_position);
+#endif
 DECLARE_HASHTABLE_UINT32(VT, HT_ORDER, 1)
 typedef uint32_t ht_key_t;
 typedef struct hashtable_uint32_t ht_slot_t;
@@ -60,6 +86,10 @@ typedef uint64_t ht_key_t;
 typedef struct hashtable_uint64_t ht_slot_t;
 #endif
 typedef struct value_VT ht_val_t;
+#ifdef HT_STUB_CLOSER
+#undef find_closer_entry_VT
+_Static_assert(ht_counter_base == 0 && __COUNTER__ == 3, "find_closer_entry occurrences numbered as expected");
+#endif
 
 #define HT_INVALID ((ht_key_t)HASHTABLE_INVALIDENTRY)
 #define HT_H(k) (HT_UF((uint64_t)(k)) & (HT_N - 1))
